@@ -223,6 +223,7 @@ func runC10(w *World) {
 	}
 	// subscription changes as scheduler actions
 	changes := 2 + w.knob("subchanges", 4)
+	foreignUnsub := w.knob("foreignunsub", 2) == 1
 	w.extra = append(w.extra, func() []action {
 		var acts []action
 		for si, s := range subs {
@@ -258,6 +259,17 @@ func runC10(w *World) {
 					if wn.kind == c[0] && wn.name == c[1] && wn.unsubAt < 0 {
 						return // already subscribed
 					}
+				}
+				if foreignUnsub && w.ch.choose(3) == 0 {
+					// leaving something this connection never joined: legal, acknowledged, and
+					// nobody else's business
+					cmd := "UNSUBSCRIBE"
+					if c[0] == "psubscribe" {
+						cmd = "PUNSUBSCRIBE"
+					}
+					w.stat("c10.unsubscribes_without_subscription", 1)
+					s.a.sendLive(cmd, c[1])
+					return
 				}
 				s.wins = append(s.wins, &subWindow{kind: c[0], name: c[1], sendStep: w.step, ackStep: -1, unsubAt: -1})
 				s.a.sendLive(strings.ToUpper(c[0]), c[1])
